@@ -67,10 +67,24 @@ def run(ctx):
     }
     used = set()
     depth_of = {}
+    # links between stream endpoints: consecutive elements of a Pipeline, or an unguarded whole-record connect (no omit / keep) - both forward valid,
+    # ready and the payload unchanged.  "X" as a link end means the module X (its .sink / .source).
+    links = []
+    for p in pls:
+        for a_, b_ in zip(p, p[1:]):
+            links.append((a_, b_))
+    plain = []
+    for l in v.leaves:
+        if l.kind == "connect" and not l.guards and l.domain == "comb" and not (l.stmt.omit or l.stmt.keep):
+            a_, b_ = key(l.value), key(l.target)
+            links.append((a_[:-len(".source")] if a_.endswith(".source") else a_, b_[:-len(".sink")] if b_.endswith(".sink") else b_))
+            plain.append(id(l))
     for nm, (src, dst, cdf, cdt, desc, dargs) in want.items():
-        pl = [p for p in pls if len(p) == 3 and p[0] == src and p[2] == dst]
+        mids = [b_ for a_, b_ in links if a_ == src and (b_, dst) in links and any(str(o) == b_ for o in cdcs)]
+        pl = [[src, mids[0], dst]] if mids else []
         if not pl:
-            ob1.refute("pipeline:%s" % nm, "no Pipeline(%s, <cdc>, %s): pipelines are %s" % (src, dst, pls), None)
+            ob1.refute("pipeline:%s" % nm, "%s does not reach %s through a ClockDomainCrossing by plain stream links (Pipeline elements or whole-record connects): links are %s" %
+                       (src, dst, links), None)
             continue
         c = [o for o in cdcs if str(o) == pl[0][1]]
         if not c or str(c[0]) in used:
@@ -105,9 +119,15 @@ def run(ctx):
             if norm(g2) != norm(exp):
                 ob2.refute("layout:%s" % nm, "the %s crossing carries %s but the port's %s is %s: a missing field is dropped, a narrower one truncated" %
                            (nm, got, desc, exp), c.loc)
-    extra = [l for l in v.leaves if l.kind in ("assign", "connect")]
-    for l in extra:
-        ob1.refute("extra-driver", "LiteDRAMNativePortCDC drives %s outside the three pipelines" % l, l.loc)
+    # nothing else may touch the handshake or payload of the six port endpoints or of the crossings
+    eps = {e_ for nm, w_ in want.items() for e_ in w_[:2]} | {str(o) + sfx for o in cdcs for sfx in (".sink", ".source")}
+    for l in v.leaves:
+        if l.kind not in ("assign", "connect") or id(l) in plain:
+            continue
+        ends = [key(l.target)] + ([key(l.value)] if l.kind == "connect" else [])
+        if any(e_ == ep or e_.startswith(ep + ".") for e_ in ends for ep in eps):
+            ob1.refute("extra-driver", "LiteDRAMNativePortCDC drives %s next to the plain stream links: a handshake or payload signal of a crossing is re-timed / overridden, so "
+                       "words can be duplicated or lost" % l, l.loc)
     # ---- C08.3 / C08.5: crossbar.get_port -------------------------------------------------------------------
     for cd, dw in (("sys", None), ("user", None), ("user", 32)):
         kw = {"clock_domain": Const(cd)}
